@@ -430,6 +430,7 @@ def generate(tier, seed, ctx):
         R.append("c20.unit " + n)
     for i in range(80):
         R.append("c20.ident %d" % i)
+    R += gen_cover(random.Random(seed * 15485863 + 2020), thorough)
     return R
 
 
@@ -636,6 +637,8 @@ def compare(rq, impl, model, ctx):
     bump(ctx, op)
     if op in ("c20.unit", "c20.units", "c20.ident"):
         return compare_units(op, a, model, ctx)
+    if op in COVER_OPS:
+        return compare_cover(op, a, rq, impl, model, ctx)
     if op in ("c20.rtfuncL", "c20.rtfuncG"):
         if tag(model) == "undef":
             return []
@@ -810,6 +813,402 @@ def compare(rq, impl, model, ctx):
             round_oracle(out, flat_v, flat_x, flat_u, d, {"c20.inunitsT": "table, one dimension", "c20.inunitsM": "Matrix", "c20.inunitsC": "table, per-column dimensions"}[op])
         if not out:
             cmp_values(ri, rm, "In_Units table/matrix", out)
+        return out
+    return [fail("corr", "unknown op " + op)]
+
+
+# ------------------------------------------------------------------------------------------------
+# coverage extension: Time_Display, Reduced_Mass, Formatted_String, Check_For_Warning, File_Exists,
+# operator<< (Vector, Matrix, DataPoint), Save_Function (1-D, 2-D), Interpolation_2D()
+# ------------------------------------------------------------------------------------------------
+
+COVER_OPS = ("c20.timedisp", "c20.redmass", "c20.fmtstr", "c20.warn", "c20.fexists", "c20.vecout", "c20.matout", "c20.dpout",
+             "c20.save1", "c20.save2", "c20.save2d0")
+TIME_RATIOS = [Fraction(31557600), Fraction(604800), Fraction(86400), Fraction(3600), Fraction(60), Fraction(1), Fraction(1, 1000)]
+TIME_UNITS = ["y", "w", "d", "h", "m", "s", "ms"]
+TIME_MARGIN_BITS = 44      # a floor argument closer than 2^-44*|seconds| (in seconds) to an integer is a knife-edge of the double arithmetic
+TIME_STRICT = os.environ.get("LP_C20_TIME_STRICT") == "1"
+TIME_KNIFE_CLAUSE = ("Time_Display: malformed field at a floor knife-edge of the double arithmetic "
+                     "(a component reaches its carry bound or is negative, e.g. 1000ms / 0-1ms)")
+COLORS = ["Default", "Black", "Red", "Green", "Yellow", "Blue", "Magenta", "Cyan", "White"]
+
+
+def enhex8(s):
+    return s.encode("utf-8").hex() if s else "-"
+
+
+def unhex8(t):
+    return "" if t == "-" else bytes.fromhex(t).decode("utf-8", errors="replace")
+
+
+def time_split(x):
+    """exact decomposition (as the model computes it): components, and per stage the distance (in seconds) of the
+    floor argument from the nearest integer"""
+    s = Fraction(x)
+    comps, dist = [], []
+    for u in TIME_RATIOS:
+        q = s / u
+        t = math.floor(q)
+        fr_ = q - t
+        dist.append(min(fr_, 1 - fr_) * u)
+        comps.append(t)
+        s -= t * u
+    return comps, dist
+
+
+def time_first(comps):
+    for i in range(4):
+        if comps[i] > 0:
+            return i
+    return 4
+
+
+def time_safe(x):
+    """no stage that decides the displayed string is a knife-edge (x = 0 is exact in double: every product is 0)"""
+    if x == 0:
+        return True
+    comps, dist = time_split(x)
+    i = time_first(comps)
+    lim = abs(Fraction(x)) / 2 ** TIME_MARGIN_BITS
+    return all(d > lim for d in dist[:i + 3])
+
+
+TIME_RE = re.compile(r"^\[(0?-?\d+)(y|w|d|h|m|s|ms):(0?-?\d+)(y|w|d|h|m|s|ms):(0?-?\d+)(y|w|d|h|m|s|ms)\]$")
+
+
+def time_oracle(x, text):
+    """the property's clauses on the implementation's own string: format, carry bounds, reconstruction.
+    Returns (wellformed, malformed_detail, reconstructs)"""
+    m = TIME_RE.match(text)
+    if not m:
+        return False, "not of the form [NNu:NNu:NNu]", False
+    f = [m.group(1), m.group(3), m.group(5)]
+    u = [m.group(2), m.group(4), m.group(6)]
+    if u[0] not in TIME_UNITS[:5]:
+        return False, "leading unit " + u[0], False
+    i = TIME_UNITS.index(u[0])
+    if u != TIME_UNITS[i:i + 3]:
+        return False, "units not consecutive: " + ",".join(u), False
+    v = [int(t[1:]) if t.startswith("0-") else int(t) for t in f]      # "0-1": a negative component, zero-padded
+    bounds = [None, 53, 7, 24, 60, 60, 1000]
+    bad = ""
+    for k in range(3):
+        w = 3 if i + k == 6 else 2
+        if v[k] < 0 or (bounds[i + k] is not None and v[k] >= bounds[i + k]):
+            bad = "component %s%s outside its carry bound" % (f[k], u[k])
+        elif len(f[k]) != max(w, len(str(v[k]))):
+            bad = "field %s%s is not zero-padded to %d characters" % (f[k], u[k], w)
+    rec = sum(v[k] * TIME_RATIOS[i + k] for k in range(3))
+    # what is not displayed: the larger units (zero when i is the first non-zero one) and less than one last unit
+    xx = Fraction(x)
+    tol = abs(xx) / 2 ** 40 + Fraction(1, 10 ** 9)
+    upper = TIME_RATIOS[i + 2] + tol
+    recon = -tol <= xx - rec <= upper if x >= 0 else True
+    return (bad == ""), bad, recon
+
+
+def gen_cover(rng, thorough):
+    R = []
+    n = 4 if thorough else 1
+    # --- Time_Display ------------------------------------------------------------------------------------------
+    xs = [0.0, 2.0 ** -20, 0.0004, 0.00051, 0.0015, 0.25 + 2.0 ** -11, 0.9995, 1.0005, 59.9995, 60.0005, 3599.9995, 3600.0005,
+          86399.9995, 86400.0005, 604799.9995, 604800.0005, 31557599.9995, 31557600.0005, 1e9 + 0.3, 3.3e9, 6.0e16 + 12345.0,
+          -0.9995, -86400.0005, 90061.2505, 12345.6785,
+          # whole seconds (knife-edges of the millisecond stage; 7, 27, 28 are displayed as 06s:1000ms / 27s:0-1ms / 27s:999ms)
+          1.0, 7.0, 14.0, 27.0, 28.0, 54.0, 59.0, 60.0, 67.0, 3600.0, 86400.0, 604800.0, 31557600.0]
+    for k in range(160 * n):
+        c = k % 8
+        if c == 0:
+            xs.append(rng.randint(0, 2 ** 20) / 1024.0 + 2.0 ** -11)          # dyadic, half-way between milliseconds (roughly)
+        elif c == 1:
+            xs.append(rng.uniform(0, 120))
+        elif c == 2:
+            xs.append(rng.uniform(0, 2 * 86400))
+        elif c == 3:
+            xs.append(rng.uniform(0, 3 * 31557600))
+        elif c == 4:
+            xs.append(10.0 ** rng.uniform(-4, 16))
+        elif c == 5:     # just below / above a carry of a random unit multiple
+            u = float(rng.choice(TIME_RATIOS[:6]))
+            xs.append(u * rng.randint(1, 50) + rng.choice([-1, 1]) * rng.choice([0.0005, 0.0105, 0.4995]))
+        elif c == 6:
+            xs.append(float(rng.randint(0, 10 ** rng.randint(1, 9))))         # whole seconds: knife-edge of the millisecond stage
+        else:
+            xs.append(rng.randint(0, 10 ** 6) / 8.0)                           # multiples of 125 ms: knife-edge
+    for x in xs:
+        R.append("c20.timedisp " + hx(x))
+    # --- Reduced_Mass ------------------------------------------------------------------------------------------
+    for k in range(80 * n):
+        c = k % 5
+        if c == 0:
+            m1 = abs(mixed_magnitude(rng, -20, 20)); m2 = m1
+        elif c == 1:
+            m1 = abs(mixed_magnitude(rng, -20, 20)); m2 = abs(mixed_magnitude(rng, -20, 20))
+        elif c == 2:
+            m1 = float(rng.randint(1, 64)); m2 = float(rng.randint(1, 64))
+        elif c == 3:
+            m1 = mixed_magnitude(rng, -3, 3); m2 = mixed_magnitude(rng, -3, 3)
+            if abs(m1 + m2) < 1e-3 * (abs(m1) + abs(m2)):
+                m2 = -m1      # exactly zero total mass: outside the model
+        else:
+            m1 = abs(mixed_magnitude(rng, -6, 6)); m2 = m1 * 10.0 ** rng.randint(3, 12)
+        R.append("c20.redmass %s %s" % (hx(m1), hx(m2)))
+        if c in (1, 4):
+            R.append("c20.redmass %s %s" % (hx(m2), hx(m1)))
+    # --- Formatted_String / Check_For_Warning / File_Exists ---------------------------------------------------
+    strs = ["", "abc", "Warning", "two words", "tab\tand\nnewline", "█░", "100%", "\x1b[0m"]
+    odd = ["Purple", "red", "", "Default ", "default", "Whit", "Redd"]
+    for col in COLORS + odd:
+        for bold in (0, 1):
+            ul = rng.randint(0, 1)
+            bg = rng.choice(COLORS) if rng.random() < 0.8 else rng.choice(odd)
+            R.append("c20.fmtstr %s %s %d %d %s" % (enhex8(rng.choice(strs)), enhex8(col), bold, ul, enhex8(bg)))
+    for bg in COLORS + odd[:3]:
+        R.append("c20.fmtstr %s %s %d %d %s" % (enhex8(rng.choice(strs)), enhex8(rng.choice(COLORS)), rng.randint(0, 1), rng.randint(0, 1), enhex8(bg)))
+    for cond in (0, 1):
+        for fn, msg in [("libphysica::f()", "something is odd."), ("", ""), ("g", "value 3 < 5\ttab"), ("h()", "█")]:
+            R.append("c20.warn %d %s %s" % (cond, enhex8(fn), enhex8(msg)))
+    for k in ("file", "dir", "missing", "empty"):
+        R.append("c20.fexists " + k)
+    # --- operator<< ------------------------------------------------------------------------------------------------
+    for k in range(40 * n):
+        nn = rng.choice([0, 1, 2, 3]) if k % 4 == 0 else rng.randint(1, 8)
+        R.append("c20.vecout " + lst([gen_safe(rng, 1.0) for _ in range(nn)]))
+    for (r, c) in [(1, 1), (1, 3), (2, 1), (3, 1), (2, 2), (3, 3), (4, 2), (5, 5)] + [(rng.randint(1, 6), rng.randint(1, 6)) for _ in range(20 * n)]:
+        R.append("c20.matout " + tbl([[gen_safe(rng, 1.0) for _ in range(c)] for _ in range(r)]))
+    for k in range(30 * n):
+        R.append("c20.dpout %s %s" % (hx(gen_safe(rng, 1.0)), hx(gen_safe(rng, 1.0))))
+    R.append("c20.dpout %s %s" % (hx(0.0), hx(1.0)))
+    # --- Save_Function ---------------------------------------------------------------------------------------------
+    for k in range(24 * n):
+        nk = rng.randint(3, 8)
+        x0 = float(rng.randint(-8, 8))
+        pts = rng.choice([0, 1, 2, 3, 5, 9, 17, 33]) if k % 3 else rng.randint(2, 40)
+        steps = sorted(rng.sample(range(1, 64), nk - 1))
+        width = float(rng.choice([1, 2, 4, 8, 16]))
+        xs_ = [x0] + [x0 + width * t / 64.0 for t in steps[:-1]] + [x0 + width]
+        ys_ = [rng.randint(-64, 64) / 8.0 for _ in range(nk)]
+        if k % 8 == 5:
+            ys_ = ys_[:-1]            # length mismatch: the constructor stops with a diagnostic
+        if k % 8 == 6:
+            xs_[1], xs_[2] = xs_[2], xs_[1]      # not increasing: diagnostic
+        R.append("c20.save1 %s %s %d" % (lst(xs_), lst(ys_), pts))
+    for k in range(16 * n):
+        nx, ny = rng.randint(3, 5), rng.randint(3, 5)
+        x0, y0 = float(rng.randint(-4, 4)), float(rng.randint(-4, 4))
+        xs_ = [x0 + i * rng.choice([0.5, 1.0, 2.0]) for i in range(nx)]
+        xs_ = sorted(set(xs_))
+        xs_ = [x0 + 0.5 * i * (i + 1) for i in range(nx)] if len(xs_) < 3 or k % 2 else [x0 + i for i in range(nx)]
+        ys_ = [y0 + 0.25 * j * (j + 2) for j in range(ny)]
+        t = [[rng.randint(-32, 32) / 4.0 for _ in range(ny)] for _ in range(nx)]
+        if k % 8 == 7:
+            t[1] = t[1][:-1]          # ragged table: diagnostic
+        xp = rng.choice([1, 2, 3, 4, 5, 7])
+        yp = rng.choice([0, 1, 2, 3, 6])
+        R.append("c20.save2 %s %s %s %d %d" % (lst(xs_), lst(ys_), tbl(t), xp, yp))
+    for (xp, yp) in [(0, 0), (1, 0), (2, 0), (3, 0), (5, 0), (3, 5), (4, 2), (9, 3), (2, 1)]:
+        R.append("c20.save2d0 %d %d" % (xp, yp))
+    return R
+
+
+def _tok_value(t):
+    try:
+        return Fraction(t)          # decimal / scientific notation as written by ostream << double
+    except (ValueError, ZeroDivisionError):
+        return None
+
+
+def _six_ok(tv, v, scale):
+    """token value tv is the six-digit rendering of v, up to the rounding of the double arithmetic (absolute 2^-40*scale)"""
+    if tv is None:
+        return False
+    half = Fraction(10) ** (expo10(v) - 5) / 2 if v != 0 else Fraction(0)
+    return abs(tv - v) <= half * (1 + Fraction(1, 2 ** 20)) + abs(Fraction(scale)) / 2 ** 40
+
+
+def cmp_lines(text_i, text_m, rows, scales, what, out, ctx):
+    """line structure exactly (class A); every token byte-identical to the model's or, failing that, within the six-digit
+    tolerance of the exact value (class B, counted as excused)"""
+    li, lm = text_i.split("\n"), text_m.split("\n")
+    if len(lm) != len(rows) + 1 or lm[-1] != "":
+        out.append(fail("corr", "model-internal: line count of " + what, "%d lines for %d points" % (len(lm) - 1, len(rows))))
+        return
+    if len(li) != len(lm) or li[-1] != "":
+        out.append(fail("prop", what + ": number of lines differs from the number of Linear_Space points",
+                        "%d lines written, %d points expected" % (len(li) - (1 if li[-1] == "" else 0), len(rows))))
+        return
+    for L, (a_, b_, row) in enumerate(zip(li[:-1], lm[:-1], rows)):
+        if a_ == b_:
+            continue
+        ta, tb = a_.split("\t"), b_.split("\t")
+        if len(ta) != len(tb) or any(t == "" or t != t.strip() for t in ta):
+            out.append(fail("prop", what + ": a line does not consist of %d tab-separated tokens" % len(tb), "line %d: %r" % (L, a_)))
+            return
+        for j, (x_, y_) in enumerate(zip(ta, tb)):
+            if x_ == y_ or (x_ == "-0" and y_ == "0"):
+                continue
+            if _six_ok(_tok_value(x_), row[j], scales[j]):
+                ctx["excused"] += 1
+            else:
+                out.append(fail("prop", what + ": a printed value is not the six-digit rendering of the exact value",
+                                "line %d token %d: wrote %r, exact value %r (model token %r)" % (L, j, x_, float(row[j]), y_)))
+                return
+
+
+def compare_cover(op, a, rq, impl, model, ctx):
+    if tag(model) == "undef":
+        bump(ctx, "undef:" + op)
+        return []
+    fs, both = std_outcome(rq, impl, model)
+    if not both:
+        if tag(model) in ("ok", "err"):
+            ctx["nontrivial"].add((op, tag(model)))
+        return fs
+    ti, tm = toks(impl), toks(model)
+    out = []
+    if op == "c20.timedisp":
+        x = fl(a[0])
+        si, sm = unhex8(ti[0]), unhex8(tm[0])
+        comps = [int(t) for t in tm[1:8]]
+        safe = time_safe(x)
+        wf, bad, recon = time_oracle(x, si)
+        ctx["nontrivial"].add((op, time_first(comps), safe, x < 0, min(len(str(abs(comps[0]))), 4)))
+        if safe:
+            if si != sm:
+                kind = "prop" if (not wf and x >= 0) or not recon else "corr"
+                out.append(fail(kind, "Time_Display differs from the exact decomposition (no floor knife-edge within 2^-%d)" % TIME_MARGIN_BITS,
+                                "Time_Display(%r) = %r, model %r%s" % (x, si, sm, (" : " + bad) if bad else "")))
+        else:
+            bump(ctx, "timedisp:knife-edge inputs")
+            if si != sm:
+                # a neighbouring decomposition is accepted when it reconstructs the input
+                if not recon or TIME_RE.match(si) is None:
+                    out.append(fail("prop", "Time_Display: the displayed components do not add up to the input",
+                                    "Time_Display(%r) = %r, model %r" % (x, si, sm)))
+                elif not wf and x >= 0:
+                    bump(ctx, "timedisp:malformed at a knife-edge (reported under LP_C20_TIME_STRICT=1)")
+                    if TIME_STRICT:
+                        out.append(fail("prop", TIME_KNIFE_CLAUSE, "Time_Display(%r) = %r (%s), exact decomposition %r" % (x, si, bad, sm)))
+                else:
+                    ctx["excused"] += 1
+        return out
+    if op == "c20.redmass":
+        m1, m2 = fl(a[0]), fl(a[1])
+        v, m = fl(ti[0]), fr(tm[0])
+        ctx["nontrivial"].add((op, m1 == m2, m1 > 0, m2 > 0))
+        # exact: 0 < mu < min(m1,m2); the rounded product/quotient may land up to two ulp above the smaller mass
+        if m1 > 0 and m2 > 0 and not (0 < v <= min(m1, m2) * (1 + 4 * 2.0 ** -53)):
+            out.append(fail("prop", "Reduced_Mass of positive masses is not in (0, min(m1,m2)] (two ulp of slack)", "mu(%r,%r) = %r" % (m1, m2, v)))
+        if m1 == m2 and m1 > 0 and not close(v, Fraction(m1) / 2, Fraction(m1), 2):
+            out.append(fail("prop", "Reduced_Mass of equal masses is not half the mass", "mu(%r,%r) = %r" % (m1, m2, v)))
+        if not close(v, m, m, 4) and not out:
+            out.append(fail("prop" if not close(v, m, m, 2 ** 30) else "corr", "Reduced_Mass differs from m1*m2/(m1+m2)", "mu(%r,%r) = %r, exact %r" % (m1, m2, v, _f(m))))
+        return out
+    if op == "c20.fmtstr":
+        s_, col, bold, bg = unhex8(a[0]), unhex8(a[1]), int(a[2]), unhex8(a[4])
+        oi, om = unhex8(ti[0]), unhex8(tm[0])
+        known = col in COLORS and bg in COLORS
+        ctx["nontrivial"].add((op, col if col in COLORS else "?", bold, bg in COLORS))
+        if (col == "Default" and not bold) or not known:
+            if oi != s_:
+                out.append(fail("prop", "Formatted_String changes the string for Default/not bold or an unknown colour", "%r -> %r" % (s_, oi)))
+        elif s_ not in oi or not oi.startswith("\x1b[") or not oi.endswith("\x1b[0m"):
+            out.append(fail("prop", "Formatted_String: the text is not wrapped in an escape sequence and a reset", "%r -> %r" % (s_, oi)))
+        if oi != om and not out:
+            out.append(fail("corr", "Formatted_String differs from the model", "impl %r model %r" % (oi, om)))
+        if ti[1] != tm[1]:
+            out.append(fail("prop", "Formatted_String: warning written iff a colour is unknown", "impl warned=%s model warned=%s" % (ti[1], tm[1])))
+        elif ti[2] != tm[2]:
+            out.append(fail("corr", "Formatted_String: text of the warning differs from the model", "impl %r model %r" % (unhex8(ti[2]), unhex8(tm[2]))))
+        return out
+    if op == "c20.warn":
+        cond, msg = int(a[0]), unhex8(a[2])
+        di, dm = unhex8(ti[0]), unhex8(tm[0])
+        ctx["nontrivial"].add((op, cond, len(msg) > 0))
+        if (not cond and di != "") or (cond and (msg not in di or di == "")):
+            out.append(fail("prop", "Check_For_Warning prints iff the condition holds", "condition %d, wrote %r" % (cond, di)))
+        elif di != dm:
+            out.append(fail("corr", "Check_For_Warning: text differs from the model", "impl %r model %r" % (di, dm)))
+        return out
+    if op == "c20.fexists":
+        ctx["nontrivial"].add((op, a[0]))
+        if ti[0] != tm[0]:
+            out.append(fail("prop", "File_Exists differs from whether the path exists", "%s: %s" % (a[0], ti[0])))
+        return out
+    if op in ("c20.vecout", "c20.matout", "c20.dpout"):
+        oi, om = unhex8(ti[0]), unhex8(tm[0])
+        if op == "c20.vecout":
+            vals, _ = read_list(a, fl)
+            ctx["nontrivial"].add((op, min(len(vals), 4), notation_classes(om.replace("(", " ").replace(")", " ").replace(",", " "))))
+            parts = oi[1:-1].split(" , ") if len(oi) >= 2 and vals else []
+            shape_ok = oi.startswith("(") and oi.endswith(")") and len(parts) == len(vals)
+        elif op == "c20.matout":
+            t, _ = read_table(a, fl)
+            vals = [x for r in t for x in r]
+            ctx["nontrivial"].add((op, min(len(t), 4), min(len(t[0]), 4)))
+            lines = oi.split("\n")
+            shape_ok = len(lines) == len(t)
+            parts = []
+            for i_, ln in enumerate(lines):
+                o_, c_ = ("⌈", "⌉") if i_ == 0 else (("⌊", "⌋") if i_ == len(t) - 1 else ("|", "|"))
+                if not (ln.startswith(o_) and ln.endswith(c_)):
+                    shape_ok = False
+                    break
+                cells = ln[1:-1].split("\t")
+                if len(cells) != len(t[0]):
+                    shape_ok = False
+                parts += cells
+        else:
+            vals = [fl(a[0]), fl(a[1])]
+            ctx["nontrivial"].add((op, notation_classes(om)))
+            parts = oi.split("\t")
+            shape_ok = len(parts) == 2
+        what = {"c20.vecout": "operator<<(Vector)", "c20.matout": "operator<<(Matrix)", "c20.dpout": "operator<<(DataPoint)"}[op]
+        if oi != om:
+            good = shape_ok and len(parts) == len(vals) and all(_six_ok(_tok_value(p_), Fraction(v_), 0) for p_, v_ in zip(parts, vals))
+            out.append(fail("corr" if good else "prop", what + (": differs from the model (separators/brackets as coded)" if good else
+                            ": brackets, separators or six-digit values are not the documented format"), "impl %r model %r" % (oi[:200], om[:200])))
+        return out
+    if op in ("c20.save1", "c20.save2", "c20.save2d0"):
+        bi, bm = unhex8(ti[0]), unhex8(tm[0])
+        n = int(tm[1])
+        w = 2 if op == "c20.save1" else 3
+        flat = [fr(t) for t in tm[2:2 + n * w]]
+        rows = [flat[i * w:(i + 1) * w] for i in range(n)]
+        if op == "c20.save1":
+            xs_, r_ = read_list(a, fl)
+            ys_, r_ = read_list(r_, fl)
+            pts = int(r_[0])
+            scales = [max(abs(v) for v in xs_), 8 * max([abs(v) for v in ys_] + [1.0])]
+            expect = 1 if pts < 2 else pts
+            key = (op, min(pts, 4), len(xs_))
+            what = "Interpolation::Save_Function"
+        else:
+            if op == "c20.save2":
+                xs_, r_ = read_list(a, fl)
+                ys_, r_ = read_list(r_, fl)
+                t_, r_ = read_table(r_, fl)
+            else:
+                xs_, ys_, t_, r_ = [-1.0, 1.0], [-1.0, 1.0], [[0.0]], a
+            xp, yp = int(r_[0]), int(r_[1])
+            yp = xp if yp == 0 else yp
+            scales = [max(abs(v) for v in xs_), max(abs(v) for v in ys_), 4 * max([abs(v) for r in t_ for v in r] + [1.0])]
+            expect = (1 if xp < 2 else xp) * (1 if yp < 2 else yp)
+            key = (op, min(xp, 4), min(yp, 4))
+            what = "Interpolation_2D::Save_Function" + (" of Interpolation_2D()" if op == "c20.save2d0" else "")
+        ctx["nontrivial"].add(key)
+        if n != expect:
+            out.append(fail("corr", "model-internal: number of Save_Function points", "%d vs %d" % (n, expect)))
+        cmp_lines(bi, bm, rows, scales, what, out, ctx)
+        if op != "c20.save1" and not out:
+            # row-major order: the x token changes every `yp` lines
+            li = [l.split("\t") for l in bi.split("\n")[:-1]]
+            ny = 1 if yp < 2 else yp
+            if any(li[k][0] != li[k - k % ny][0] for k in range(len(li))) or any(li[k][1] != li[k % ny][1] for k in range(len(li))):
+                out.append(fail("prop", what + ": lines are not in row-major order (x outer, y inner)", bi[:200]))
+        if op == "c20.save2d0":
+            if any(fl(t) != 0.0 for t in ti[1:5]) or any(r[2] != 0 for r in rows):
+                out.append(fail("prop", "Interpolation_2D() does not evaluate to zero on [-1,1]^2", " ".join(ti[1:5])))
         return out
     return [fail("corr", "unknown op " + op)]
 
